@@ -115,6 +115,16 @@ const TEMPLATES: &[(&str, bool)] = &[
     ("MATCH (n:P) SET n.v = n.id RETURN n.v AS v, n.name AS name, n.id AS id, n", true),
     ("MERGE (n:P {id: 2}) ON MATCH SET n.seen = 1 RETURN n.seen, n.name, n.id", true),
     ("UNWIND [1, 2] AS x CREATE (n:L {k: x}) RETURN x, n.k, n", true),
+    // `;` inside quoted text: plain, after an escaped delimiter (\' and \"), in a back-quoted name
+    ("CREATE (n:Note {text: 'it\\'s late; call Bob'})", true),
+    ("CREATE (n:Note {text: 'it\\'s late; call Bob'}) RETURN n.text", true),
+    ("CREATE (n:Note {text: \"say \\\"hi\\\"; bye\"}) RETURN n.text", true),
+    ("MATCH (n:P) WHERE n.id = 1 SET n.note = 'a; b', n.q = 'c\\'; d' RETURN n.note, n.q", true),
+    ("MATCH (n:P) WHERE n.name = 'x\\'; y' RETURN n.id", false),
+    ("RETURN 'one; two' AS s, \"three\\\"; four\" AS t", false),
+    ("MATCH (n:`P;x`) RETURN n.id", false),
+    ("CREATE (n:`L;1` {k: 1}) RETURN n.k", true),
+    ("MATCH (n:P) RETURN n.id AS `a;b`", false),
     // parameters: neither front end accepts a parameter map, the engine is run without one
     ("MATCH (n:P) WHERE n.id = $p RETURN n.id", false),
     ("CREATE (n:L {k: $p})", true),
@@ -131,6 +141,8 @@ const WRITE_LEADS: &[&str] = &["CREATE", "MERGE", "FOREACH", "SET", "DELETE", "D
 enum T {
     Word(String),
     Str(char, String),
+    /// quoted text with escaped delimiters: the parts between the `\q`
+    StrEsc(char, Vec<String>),
     Sym(char),
     /// `// …` up to the line feed
     Line(String),
@@ -158,14 +170,24 @@ fn tokenize(s: &str) -> Vec<(T, bool)> {
             }
             out.push((T::Word(w), false));
         } else if c == '\'' || c == '"' || c == '`' {
-            let mut b = String::new();
+            let mut parts = vec![String::new()];
             i += 1;
             while i < cs.len() && cs[i] != c {
-                b.push(cs[i]);
+                if cs[i] == '\\' && i + 1 < cs.len() && cs[i + 1] == c {
+                    // escaped delimiter: a new part
+                    parts.push(String::new());
+                    i += 2;
+                    continue;
+                }
+                parts.last_mut().unwrap().push(cs[i]);
                 i += 1;
             }
             i += 1;
-            out.push((T::Str(c, b), false));
+            if parts.len() == 1 {
+                out.push((T::Str(c, parts.pop().unwrap()), false));
+            } else {
+                out.push((T::StrEsc(c, parts), false));
+            }
         } else {
             out.push((T::Sym(c), false));
             i += 1;
@@ -226,7 +248,11 @@ struct Wrap {
     prefix: Option<&'static str>,
     /// comment between the prefix and the statement
     inner_comment: Option<(bool, String)>,
+    /// comment between two tokens of the statement (at the n-th blank of the template)
+    mid_comment: Option<(usize, bool, String)>,
     semicolon: bool,
+    /// comment after the closing `;` (or after the statement)
+    tail_comment: Option<(bool, String)>,
 }
 
 impl Wrap {
@@ -240,12 +266,12 @@ impl Wrap {
                 None => String::new(),
             },
             if self.inner_comment.is_some() { "+inner-comment" } else { "" },
-            if self.semicolon { "+semicolon" } else { "" }
+            format!("{}{}{}", if self.mid_comment.is_some() { "+mid-comment" } else { "" }, if self.semicolon { "+semicolon" } else { "" }, if self.tail_comment.is_some() { "+tail-comment" } else { "" })
         )
     }
 }
 
-const COMMENT_TEXTS: &[&str] = &["note", "SET n.x = 1", " CREATE (x) ", "explain", "it's", "a-b"];
+const COMMENT_TEXTS: &[&str] = &["note", "SET n.x = 1", " CREATE (x) ", "explain", "it's", "a-b", " readers first; writers later", "a; b", ";", " all of them; no filter "];
 
 fn random_wrap(rng: &mut Rng) -> Wrap {
     let mut w = Wrap::default();
@@ -267,7 +293,13 @@ fn random_wrap(rng: &mut Rng) -> Wrap {
     if w.prefix.is_some() && rng.chance(1, 5) {
         w.inner_comment = Some((rng.chance(1, 2), rng.pick(COMMENT_TEXTS).to_string()));
     }
-    w.semicolon = rng.chance(1, 4);
+    if rng.chance(1, 4) {
+        w.mid_comment = Some((rng.usize(6), rng.chance(1, 2), rng.pick(COMMENT_TEXTS).to_string()));
+    }
+    w.semicolon = rng.chance(1, 3);
+    if rng.chance(1, 4) {
+        w.tail_comment = Some((rng.chance(1, 2), rng.pick(COMMENT_TEXTS).to_string()));
+    }
     w
 }
 
@@ -283,12 +315,33 @@ fn wrap_tokens(toks: &[(T, bool)], w: &Wrap) -> Vec<(T, bool)> {
             out.push(comment(c));
         }
     }
-    out.extend(toks.iter().cloned());
+    match &w.mid_comment {
+        Some((nth, line, text)) => {
+            // after the (nth mod #blanks)-th blank of the template
+            let blanks: Vec<usize> = toks.iter().enumerate().filter(|(k, (_, flex))| *flex && k + 1 < toks.len()).map(|(k, _)| k).collect();
+            let at = if blanks.is_empty() { None } else { Some(blanks[nth % blanks.len()]) };
+            for (k, t) in toks.iter().enumerate() {
+                out.push(t.clone());
+                if Some(k) == at {
+                    out.push(comment(&(*line, text.clone())));
+                }
+            }
+        }
+        None => out.extend(toks.iter().cloned()),
+    }
     if w.semicolon {
         if let Some(l) = out.last_mut() {
             l.1 = true;
         }
         out.push((T::Sym(';'), false));
+    }
+    if let Some(c) = &w.tail_comment {
+        if let Some(l) = out.last_mut() {
+            l.1 = true;
+        }
+        let mut t = comment(c);
+        t.1 = false;
+        out.push(t);
     }
     out
 }
@@ -301,6 +354,7 @@ fn items(toks: &[(T, bool)], cs: CaseStyle, ss: SepStyle, rng: &mut Rng) -> (Str
         let tok = match t {
             T::Word(w) => format!("W{}", hex(&recase(w, cs, rng))),
             T::Str(q, b) => format!("S{:02x}{}", *q as u32, hex(b)),
+            T::StrEsc(q, parts) => format!("E{:02x}{}", *q as u32, parts.iter().map(|p| hex(p)).collect::<Vec<_>>().join("_")),
             T::Sym(c) => format!("Y{:02x}", *c as u32),
             T::Line(b) => format!("L{}", hex(b)),
             T::Block(b) => format!("B{}", hex(b)),
@@ -497,15 +551,25 @@ fn main() {
         // (3) every template x one of the other wrappers (leading whitespace, // and /* */ comments
         //     holding write keywords, trailing `;`, all of them at once), rotating
         for ti in 0..toks.len() {
-            let w = match ti % 6 {
+            let w = match ti % 9 {
                 0 => Wrap { lead: "l".into(), ..Wrap::default() },
                 1 => Wrap { comments: vec![(true, "SET n.x = 1".into())], ..Wrap::default() },
                 2 => Wrap { comments: vec![(false, " CREATE (x) ".into())], ..Wrap::default() },
                 3 => Wrap { semicolon: true, ..Wrap::default() },
-                4 => Wrap { lead: "cs".into(), comments: vec![(false, "explain".into()), (true, "it's".into())], prefix: Some("PROFILE"), inner_comment: Some((true, "DELETE".into())), semicolon: true },
-                _ => Wrap { lead: "t".into(), comments: vec![(true, "profile".into())], prefix: Some("EXPLAIN"), inner_comment: None, semicolon: true },
+                4 => Wrap { lead: "cs".into(), comments: vec![(false, "explain".into()), (true, "it's".into())], prefix: Some("PROFILE"), inner_comment: Some((true, "DELETE".into())), semicolon: true, ..Wrap::default() },
+                5 => Wrap { lead: "t".into(), comments: vec![(true, "profile".into())], prefix: Some("EXPLAIN"), semicolon: true, ..Wrap::default() },
+                // `;` that is text, not a separator
+                6 => Wrap { mid_comment: Some((ti / 9, true, " readers first; writers later".into())), ..Wrap::default() },
+                7 => Wrap { mid_comment: Some((ti / 9 + 1, false, " all of them; no filter ".into())), semicolon: ti % 2 == 0, ..Wrap::default() },
+                _ => Wrap { semicolon: true, tail_comment: Some((ti % 2 == 0, " everyone; really".into())), ..Wrap::default() },
             };
             push(&mut cases, &mut rng, ti, &w, all_cs[ti % 3], all_ss[(ti / 3) % 5], (ti % 4, ti % 2 == 0), "");
+            let w2 = match ti % 3 {
+                0 => Wrap { mid_comment: Some((ti / 3, true, "a; b".into())), ..Wrap::default() },
+                1 => Wrap { mid_comment: Some((ti / 3, false, ";".into())), ..Wrap::default() },
+                _ => Wrap { semicolon: true, tail_comment: Some((ti % 2 == 1, "done; next".into())), ..Wrap::default() },
+            };
+            push(&mut cases, &mut rng, ti, &w2, all_cs[(ti + 1) % 3], all_ss[(ti / 3 + 2) % 5], (ti % 4, ti % 2 == 1), "");
         }
         rep.exhaustive = true;
         rep.exhaustive_note = format!(
